@@ -338,7 +338,11 @@ func (ex *Exec) callSSA(caller *frame, fn *ssa.Function, args []Value, env []Val
 			ex.noteIntrinsic(name)
 			return in(ex, caller, fn, args, site)
 		}
-		ex.unsupported("function without Go body: " + name)
+		from := ""
+		if caller != nil {
+			from = " (called from " + ex.fname(caller.fn) + ")"
+		}
+		ex.unsupported("function without Go body: " + name + from)
 	}
 	ex.depth++
 	if ex.depth > ex.cfg.MaxDepth {
@@ -376,6 +380,11 @@ func (ex *Exec) runFrame(fr *frame) {
 		r := recover()
 		tp, ok := r.(*targetPanic)
 		if !ok {
+			if _, pe := r.(pathEnd); !pe && fr.ex.cfg.Debug {
+				if _, k := r.(killed); !k {
+					fmt.Printf("  engine panic unwinding through %s block %d\n", fr.fn, fr.block.Index)
+				}
+			}
 			panic(r) // pathEnd or an engine bug: not visible to the target
 		}
 		fr.panicking = true
